@@ -1,0 +1,244 @@
+//go:build verif
+
+package scheduler
+
+import (
+	"sort"
+	"time"
+
+	remoteexecution "github.com/bazelbuild/remote-apis/build/bazel/remote/execution/v2"
+	scheduler_invocation "github.com/buildbarn/bb-remote-execution/pkg/scheduler/invocation"
+	"github.com/buildbarn/bb-remote-execution/pkg/scheduler/platform"
+	"github.com/buildbarn/bb-storage/pkg/digest"
+)
+
+// Read-only dump hooks for the "schedseq" verification harness
+// (/verif/harness/schedseq). Nothing in this file mutates scheduler
+// state and nothing in it acquires bq.lock: the harness only calls it
+// while every thread of the execution is parked or blocked.
+
+// VerifSeqOperation describes one queued operation.
+type VerifSeqOperation struct {
+	Priority           int32
+	ExpectedDuration   time.Duration
+	QueuedTimestamp    time.Time
+	ActionHash         string
+	InstanceNameSuffix string
+	QueueIndex         int
+}
+
+// VerifSeqInvocation describes one node of the invocation tree of a size
+// class queue. All slices that are heaps or lists in the implementation
+// are given in array order.
+type VerifSeqInvocation struct {
+	Keys                                  []string
+	QueuedOperations                      []VerifSeqOperation
+	Children                              []*VerifSeqInvocation // sorted by last key
+	QueuedChildren                        []string              // last key of each, heap array order
+	IdleSynchronizingWorkersChildren      []string              // last key of each, heap array order
+	QueuedChildrenIndex                   int
+	IdleSynchronizingWorkersChildrenIndex int
+	FirstQueuedOperationPriority          int32
+	ExecutingWorkers                      []string // worker keys, sorted, "key*count"
+	ExecutingWorkersCount                 int
+	LastOperationStarted                  time.Time
+	LastOperationCompletion               time.Time
+	IdleWorkersCount                      uint32
+	IdleSynchronizingWorkers              []string // worker keys, list order
+}
+
+// VerifSeqWorker describes one worker.
+type VerifSeqWorker struct {
+	Key                     string
+	CurrentTaskHash         string
+	HasCleanup              bool
+	CleanupTime             time.Time
+	Terminating             bool
+	LastInvocation          []string
+	HasLastInvocation       bool
+	Parked                  bool
+	ListIndex               int
+	StickinessStartingTimes []time.Time
+}
+
+// VerifSeqSizeClassQueue describes one size class queue.
+type VerifSeqSizeClassQueue struct {
+	SizeClass    uint32
+	MayBeRemoved bool
+	HasCleanup   bool
+	CleanupTime  time.Time
+	Drains       []string
+	Workers      []VerifSeqWorker
+	Root         *VerifSeqInvocation
+}
+
+// VerifSeqPlatformQueue describes one platform queue.
+type VerifSeqPlatformQueue struct {
+	InstanceNamePrefix string
+	Platform           string
+	StickinessLimits   []time.Duration
+	TrieIndex          int
+	SizeClasses        []uint32
+	SizeClassQueues    []VerifSeqSizeClassQueue
+}
+
+// VerifSeqState is a plain-data copy of the scheduler's state.
+type VerifSeqState struct {
+	Now                    time.Time
+	HardFailureTime        time.Time
+	PlatformQueues         []VerifSeqPlatformQueue // in bq.platformQueues order
+	SizeClassQueuesMapSize int
+	OperationsCount        int
+	InFlightCount          int
+	CleanupTimes           []time.Time // sorted
+}
+
+func verifSeqInvocation(i *invocation) *VerifSeqInvocation {
+	r := &VerifSeqInvocation{
+		QueuedChildrenIndex:                   i.queuedChildrenIndex,
+		IdleSynchronizingWorkersChildrenIndex: i.idleSynchronizingWorkersChildrenIndex,
+		FirstQueuedOperationPriority:          i.firstQueuedOperationPriority,
+		ExecutingWorkersCount:                 len(i.executingWorkers),
+		LastOperationStarted:                  i.lastOperationStarted,
+		LastOperationCompletion:               i.lastOperationCompletion,
+		IdleWorkersCount:                      i.idleWorkersCount,
+	}
+	for _, k := range i.invocationKeys {
+		r.Keys = append(r.Keys, string(k))
+	}
+	for _, o := range i.queuedOperations {
+		r.QueuedOperations = append(r.QueuedOperations, VerifSeqOperation{
+			Priority:           o.priority,
+			ExpectedDuration:   o.task.expectedDuration,
+			QueuedTimestamp:    o.task.desiredState.QueuedTimestamp.AsTime(),
+			ActionHash:         o.task.desiredState.ActionDigest.GetHash(),
+			InstanceNameSuffix: o.task.desiredState.InstanceNameSuffix,
+			QueueIndex:         o.queueIndex,
+		})
+	}
+	childKeys := make([]string, 0, len(i.children))
+	for k := range i.children {
+		childKeys = append(childKeys, string(k))
+	}
+	sort.Strings(childKeys)
+	for _, k := range childKeys {
+		r.Children = append(r.Children, verifSeqInvocation(i.children[scheduler_invocation.Key(k)]))
+	}
+	last := func(c *invocation) string {
+		if len(c.invocationKeys) == 0 {
+			return ""
+		}
+		return string(c.invocationKeys[len(c.invocationKeys)-1])
+	}
+	for _, c := range i.queuedChildren {
+		r.QueuedChildren = append(r.QueuedChildren, last(c))
+	}
+	for _, c := range i.idleSynchronizingWorkersChildren {
+		r.IdleSynchronizingWorkersChildren = append(r.IdleSynchronizingWorkersChildren, last(c))
+	}
+	for w, n := range i.executingWorkers {
+		s := string(w.workerKey)
+		for k := 1; k < n; k++ {
+			s += "*"
+		}
+		r.ExecutingWorkers = append(r.ExecutingWorkers, s)
+	}
+	sort.Strings(r.ExecutingWorkers)
+	for _, e := range i.idleSynchronizingWorkers {
+		r.IdleSynchronizingWorkers = append(r.IdleSynchronizingWorkers, string(e.worker.workerKey))
+	}
+	return r
+}
+
+// VerifSeqSnapshot returns a plain-data copy of the scheduler's state.
+func VerifSeqSnapshot(bq *InMemoryBuildQueue) *VerifSeqState {
+	s := &VerifSeqState{
+		Now:                    bq.now,
+		HardFailureTime:        bq.platformQueueAbsenceHardFailureTime,
+		SizeClassQueuesMapSize: len(bq.sizeClassQueues),
+		OperationsCount:        len(bq.operationsNameMap),
+		InFlightCount:          len(bq.inFlightDeduplicationMap),
+	}
+	for _, e := range bq.cleanupQueue.heap {
+		s.CleanupTimes = append(s.CleanupTimes, e.timestamp)
+	}
+	sort.Slice(s.CleanupTimes, func(i, j int) bool { return s.CleanupTimes[i].Before(s.CleanupTimes[j]) })
+	for _, pq := range bq.platformQueues {
+		p := VerifSeqPlatformQueue{
+			InstanceNamePrefix: pq.platformKey.GetInstanceNamePrefix().String(),
+			Platform:           pq.platformKey.GetPlatformString(),
+			StickinessLimits:   append([]time.Duration(nil), pq.workerInvocationStickinessLimits...),
+			TrieIndex:          bq.platformQueuesTrie.GetExact(pq.platformKey),
+			SizeClasses:        append([]uint32(nil), pq.sizeClasses...),
+		}
+		for _, scq := range pq.sizeClassQueues {
+			q := VerifSeqSizeClassQueue{
+				SizeClass:    scq.sizeClass,
+				MayBeRemoved: scq.mayBeRemoved,
+				Root:         verifSeqInvocation(&scq.rootInvocation),
+			}
+			if scq.cleanupKey.isActive() {
+				q.HasCleanup = true
+				q.CleanupTime = bq.cleanupQueue.heap[scq.cleanupKey-1].timestamp
+			}
+			for k := range scq.drains {
+				q.Drains = append(q.Drains, k)
+			}
+			sort.Strings(q.Drains)
+			workerKeys := make([]string, 0, len(scq.workers))
+			for k := range scq.workers {
+				workerKeys = append(workerKeys, string(k))
+			}
+			sort.Strings(workerKeys)
+			for _, k := range workerKeys {
+				w := scq.workers[workerKey(k)]
+				vw := VerifSeqWorker{
+					Key:                     k,
+					Terminating:             w.terminating,
+					Parked:                  w.wakeup != nil,
+					ListIndex:               w.listIndex,
+					StickinessStartingTimes: append([]time.Time(nil), w.stickinessStartingTimes...),
+				}
+				if t := w.currentTask; t != nil {
+					vw.CurrentTaskHash = t.desiredState.ActionDigest.GetHash()
+				}
+				if w.cleanupKey.isActive() {
+					vw.HasCleanup = true
+					vw.CleanupTime = bq.cleanupQueue.heap[w.cleanupKey-1].timestamp
+				}
+				if w.lastInvocation != nil {
+					vw.HasLastInvocation = true
+					for _, ik := range w.lastInvocation.invocationKeys {
+						vw.LastInvocation = append(vw.LastInvocation, string(ik))
+					}
+				}
+				q.Workers = append(q.Workers, vw)
+			}
+			p.SizeClassQueues = append(p.SizeClassQueues, q)
+		}
+		s.PlatformQueues = append(s.PlatformQueues, p)
+	}
+	return s
+}
+
+// VerifSeqLookupLongestPrefix performs the same platform queue lookup as
+// Execute() does and returns the instance name prefix of the platform
+// queue found ("" and false if there is none).
+func VerifSeqLookupLongestPrefix(bq *InMemoryBuildQueue, instanceName digest.InstanceName, platformMessage *remoteexecution.Platform) (string, bool) {
+	key, err := platform.NewKey(instanceName, platformMessage)
+	if err != nil {
+		return "", false
+	}
+	idx := bq.platformQueuesTrie.GetLongestPrefix(key)
+	if idx < 0 || idx >= len(bq.platformQueues) {
+		if idx >= len(bq.platformQueues) {
+			return "<index out of range>", true
+		}
+		return "", false
+	}
+	pq := bq.platformQueues[idx]
+	if pq.platformKey.GetPlatformString() != key.GetPlatformString() {
+		return "<wrong platform>" + pq.platformKey.GetInstanceNamePrefix().String(), true
+	}
+	return pq.platformKey.GetInstanceNamePrefix().String(), true
+}
